@@ -1,6 +1,6 @@
 (** C15 — property theorems only.  Each is closed by [exact] of a lemma in Proofs*.v and followed by
     [Print Assumptions]. *)
-From V Require Import Base.Util Gql.Ast C15.Model C15.Spec C15.Proofs1 C15.Proofs2 C15.Proofs3 C15.Proofs.
+From V Require Import Base.Util Gql.Ast C15.Model C15.Spec C15.Proofs1 C15.Proofs2 C15.Proofs3 C15.Proofs4 C15.Proofs.
 
 (** For every schema model M satisfying the guard, every key style and with or without the introspection types in
     the result: the JSON route accepts the standard introspection result of M, and the Schema it builds is
@@ -37,6 +37,36 @@ Proof.
   intros D D0 n [_ [Ht Hd]]. split; [exact (get_type_doc_equiv D D0 n (Ht n))|exact (get_directive_doc_equiv D D0 n (Hd n))].
 Qed.
 Print Assumptions C15_sdl_route_respects_doc_equiv.
+
+(** On the JSON route the declaration printers work from ast_to_type_system (type_system_to_ast S).  For every Schema S
+    whose table is keyed by definition name (both front ends guarantee it) that Schema has the same description, the
+    same declared root operation types and, per name, the same type definition as S up to positions, default-value text
+    and deprecations; it has no directive definitions. *)
+Theorem C15_printer_schema_on_json_route : forall sc,
+  keys_match sc ->
+  let sc' := ast_to_type_system (type_system_to_ast sc) in
+  option_map nval (sc_desc sc') = option_map nval (sc_desc sc)
+  /\ (forall op, option_map nval (declared_root (nval (sc_roots sc')) op) = option_map nval (declared_root (nval (sc_roots sc)) op))
+  /\ (forall n, option_map norm_typedef (get_type sc' n) = option_map (fun d => norm_typedef (strip_typedef d)) (get_type sc n))
+  /\ (forall n, get_directive sc' n = None).
+Proof. exact back_conversion. Qed.
+Print Assumptions C15_printer_schema_on_json_route.
+
+Theorem C15_front_ends_keys_match :
+  (forall j sc, json_route j = Ok sc -> keys_match sc) /\ (forall D, keys_match (ast_to_type_system D)).
+Proof. exact (conj json_route_keys_match ast_route_keys_match). Qed.
+Print Assumptions C15_front_ends_keys_match.
+
+(** Hence, under the hypotheses of C15_routes_agree, the type table the printers use on the JSON route is the SDL
+    route's table with the deprecations removed (compared names, modulo positions and default-value text). *)
+Theorem C15_printers_see_same_types : forall st meta M D,
+  model_ok M = true -> doc_equiv D (sdl_doc M) -> parsed_positions D ->
+  exists Sj, json_route (introspect st meta M) = Ok Sj /\
+    forall n, vis_of M n = true ->
+      option_map norm_typedef (get_type (ast_to_type_system (type_system_to_ast Sj)) n)
+      = option_map (fun d => strip_typedef (norm_typedef d)) (get_type (ast_to_type_system D) n).
+Proof. exact printers_see_same_types. Qed.
+Print Assumptions C15_printers_see_same_types.
 
 (** The guard and the restriction to [vis_of M] are needed by the code as it is: *)
 Theorem C15_shadow_root_refuted :
